@@ -299,11 +299,12 @@ pub fn spaces(tier: Tier, _seed: u64) -> Vec<Box<dyn Space>> {
         v.push(Box::new(Seqs::new(c, 1)));
         v.push(Box::new(Seqs::new(c, 2)));
     }
-    v.push(Box::new(Seqs::new(0, 3)));
+    for c in 0..BLOCK_CONTEXTS.len() {
+        v.push(Box::new(Seqs::new(c, 3)));
+    }
     if tier.is_thorough() {
-        for c in 1..BLOCK_CONTEXTS.len() {
-            v.push(Box::new(Seqs::new(c, 3)));
-        }
+        v.push(Box::new(Seqs::new(0, 4)));
+        v.push(Box::new(Seqs::new(1, 4)));
     }
     v
 }
